@@ -838,7 +838,7 @@ class spawn(SpawnBase):
                     break
                 if output_filter:
                     data = output_filter(data)
-                self._log(data, 'read')
+                self._log(self._decoder.decode(data, final=False), 'read')
                 os.write(self.STDOUT_FILENO, data)
             if self.STDIN_FILENO in r:
                 data = self.__interact_read(self.STDIN_FILENO)
@@ -850,10 +850,10 @@ class spawn(SpawnBase):
                 if i != -1:
                     data = data[:i]
                     if data:
-                        self._log(data, 'send')
+                        self._log_control(data)
                     self.__interact_writen(self.child_fd, data)
                     break
-                self._log(data, 'send')
+                self._log_control(data)
                 self.__interact_writen(self.child_fd, data)
 
 
